@@ -132,6 +132,10 @@ def replay_g(v):
         why = "result-text"
     elif want["r"] == "miss" and "".join(out["name"]).lower() != "".join(want["name"]).lower():
         why = "missing-name"
+    elif (want["r"] == "miss" and "".join(out["name"]) != "".join(want["name"])
+          and ("$(" + "".join(want["name"]) + ")") in src
+          and not re.search(r"\$\{?" + re.escape("".join(want["name"])) + r"(?![A-Za-z0-9_])", src, re.I)):
+        why = "missing-name"      # an environment variable keeps its case, in the error too
     elif want["r"] == "miss" and "".join(out["source"]) != src:
         why = "error-source"
     elif nm != v["isname"]:
